@@ -47,22 +47,22 @@ CHECKS = {
    text="Proved as lemmas: a record contains no spurious separator and splits back into header and text; the per-character code of fs_escape is prefix-free and the induction step of injectivity holds; static: both sides use the same separator literal and fs_escape. fs_escape's loop appends exactly the code of each character (loop contract replacing a text match); NuWiki._get_page by title consults the redirect table first. The composition write -> zip -> read (newest revision per title, spellings, stored redirect stubs) is bounded.",
    note="Known finding kept out of the lemma: texts starting with form feed + ' --page-- '."),
  "C15": dict(cat="proof", tech=T + " with a ghost file system" + B, ref="3/C15",
-   text="extract_member/extractall verified for all member names and destinations: every FS effect lies under the destination, rejected members leave no effect; extractall is checked against extract_member's contract through a loop invariant.",
+   text="extract_member/extractall verified for all member names and destinations: every FS effect lies under the destination, rejected members leave no effect; extractall is checked against extract_member's contract through a loop invariant; MultiEnvironment._validate_wiki_id accepts only identifiers that name a direct sub-directory of the extraction directory (non-empty, no '/', no '..').",
    note="Trusted: POSIX os.path join/normpath/abspath/dirname contracts (re-validated against posixpath on the bounded domain every run); no symlinks in a fresh destination."),
  "C16": dict(cat="proof", tech=T + ": inductive invariant over the atomic (between-yield) segments of the real gevent code" + B, ref="3/C16",
    text="Every atomic segment of qs/jobs.py / qs/qserve.py (push, pushjob, rpc_qpull before/after the yield and on GreenletExit, rpc_qfinish, rpc_qkill, shutdown, handletimeouts, dropdead), started in any state satisfying the invariant 'every known unfinished job is in exactly one place', ends in such a state; rpcserver.handle_client reaches the request handler's shutdown() (the re-queueing of a dropped connection's jobs) on every exit incl. I/O errors; pushjob is verified against an exact transition contract that its callers use. Holds for every schedule because control changes hands only at the yield.",
    note="Trusted: cooperative scheduling, heapq/min/random.choice/gevent contracts on abstract views. Rely of the suspended puller = closure of per-segment guarantees that are themselves obligations."),
  "C17": dict(cat="proof", tech=T + B, ref="3/C17",
-   text="Proved: job order = (priority, serial) lexicographic and strict total; _mark_finished / finishjob finality and exactly-one-counter; pop returns an unfinished job of a requested channel that is minimal among candidates; add under an existing id changes nothing; shutdown re-queues only unfinished jobs. The job a *resumed* puller receives can be finished: known finding.",
+   text="Proved: job order = (priority, serial) lexicographic and strict total; _mark_finished / finishjob finality and exactly-one-counter; pop returns an unfinished job of a requested channel that is minimal among candidates; add under an existing id changes nothing; shutdown re-queues only unfinished jobs; every segment of C16 re-verified under the invariant extended by I14 (handed job is of a requested channel), I15 (finish event set iff done) and I16 (an unfinished job has a timeout entry). The job a *resumed* puller receives can be finished: known finding.",
    note="As C16; _preenall's iteration is assumed (its body _preenjobq is verified)."),
  "C18": dict(cat="proof", tech=T + B, ref="3/C18",
-   text="job and workq __getstate__/__setstate__ verified from every state satisfying the invariant: fields preserved, fresh event set iff done, every unfinished job queued exactly once with its timeout, finished jobs registered, counter restored, invariant re-established; Main.savedb always writes the state. Hand-out order after a restore is observed by the bounded stand-in.",
+   text="job and workq __getstate__/__setstate__ verified from every state satisfying the invariant: fields preserved, fresh event set iff done, every unfinished job queued exactly once with its timeout, finished jobs registered, counter restored, invariant re-established; Main.savedb always writes the state. Bounded stand-in: a restart at any point of a history is not observable (same jobs, outcomes incl. later time-outs, hand-out order).",
    note="Trusted: pickle rebuilds the graph through these methods."),
  "C19": dict(cat="proof", tech=T + "; lemmas over the job-id templates" + B, ref="3/C19",
-   text="do_render_status verified as the exact function of the two job snapshots the statement describes, querying only its own job ids; job-id templates injective; download file name proved header-safe (printable ASCII, no whitespace, no delimiter).",
+   text="do_render_status verified as the exact function of the two job snapshots the statement describes, querying only its own job ids; job-id templates injective; download file name proved header-safe (printable ASCII, no whitespace, no delimiter). Bounded stand-in: the status served over histories of the real queue (kill / re-add / finish with result and error) equals the state of the render job.",
    note="Trusted: qinfo returns job._json() or None; NFKD/ASCII contract validated for every code point on every run."),
  "C20": dict(cat="proof", tech=T + " with a ghost file system, I/O-error injection at every call; static protocol obligations for render()" + B, ref="3/C20",
-   text="Status.dump, ZipCreator.create_zip and make_zip verified on every path incl. injected I/O errors: the published path is never opened for writing, only ever replaced by rename of a closed temp file from the same directory, temp unlinked on error. render(): static protocol obligations. download_with_retries: the destination only ever receives a complete file (retry loop invariant + variant, chunk loop); shutil.move modelled with its cross-file-system copy fallback; ZipCreator._write_zip's body: an I/O error while adding a member propagates. Bounded: concurrent image downloads share no destination / temp file.",
+   text="Status.dump, ZipCreator.create_zip and make_zip verified on every path incl. injected I/O errors: the published path is never opened for writing, only ever replaced by rename of a closed temp file from the same directory, temp unlinked on error. render(): static protocol obligations, among them that the name handed to the writer is bound only from mkstemp (never the published path). download_with_retries: the destination only ever receives a complete file (retry loop invariant + variant, chunk loop); shutil.move modelled with its cross-file-system copy fallback; ZipCreator._write_zip's body: an I/O error while adding a member propagates. Bounded: concurrent image downloads share no destination / temp file.",
    note="Trusted: rename atomicity, writers write only their output path, mkstemp names differ from the published path."),
 }
 NA = {
